@@ -9,11 +9,12 @@ from props.rot_common import *
 
 PID = 'C14'
 MANIFEST = dict(
-    text='Machine-checked invariant proof (Coq, all theorems closed under the global context) over an executable model of RotatingSink (abstract directory, created-files deque, rename chain, back-of-deque deletion, directory scan on restart, three naming schemes, libc as an oracle). For every op sequence from a constructor on a directory without files named stem.*.ext (unrelated files present): the rename chain never overwrites a file; the retained files read oldest to newest are the written sequence minus a prefix formed by the files deleted at the back of the deque, nothing missing with overwrite off (rot_order, rot_whole); every file is within the limit or holds the single statement written into an empty file, the live file being exempt once rotation has stopped (rot_limit); at most max_backup_files rotated files, disk = deque, no rename/remove after the stop (rot_count, rot_stops); names carry the age (Index: all runs; Date/DateAndTime: one run with non-decreasing timestamps and monotone strftime); unrelated files untouched. Restarts: Index scheme in mode a (scan rebuilds exactly the deque, rot_append_restart) and mode w with remove_old_files, any number of them; Date scheme: only what the scan recovers (partial); DateAndTime restarts not proved. Premise bytes written = log_statement.size() is false for RotatingJsonFileSink (rot_json_refuted, D10). Tied to the real RotatingFileSink/RotatingJsonFileSink by differential runs in a scratch directory (0 disagreements) plus a direct property monitor; open findings D10, C14-datetime-restart, C14-date-restart-backwards; C14-decoy-index (a name component such as 5x parsed as index 5) was repaired (fix commit 50e20c2) and the model now requires a pure digit string.',
+    text='Machine-checked invariant proof (Coq, all theorems closed under the global context) over an executable model of RotatingSink (abstract directory, created-files deque, rename chain, back-of-deque deletion, directory scan on restart, three naming schemes, libc as an oracle). For every op sequence from a constructor on a directory without files named stem.*.ext (unrelated files present): the rename chain never overwrites a file; the retained files read oldest to newest are the written sequence minus a prefix formed by the files deleted at the back of the deque, nothing missing with overwrite off (rot_order, rot_whole); every file is within the limit or holds the single statement written into an empty file, the live file being exempt once rotation has stopped (rot_limit); at most max_backup_files rotated files, disk = deque, no rename/remove after the stop (rot_count, rot_stops); names carry the age (Index: all runs; Date/DateAndTime: one run with non-decreasing timestamps and monotone strftime); unrelated files untouched. Restarts: Index scheme in mode a (scan rebuilds exactly the deque, rot_append_restart) and mode w with remove_old_files, any number of them; Date scheme: only what the scan recovers (partial); DateAndTime restarts not proved. The model carries a code-variant flag c_cntacct (true = the earlier code that handed log_statement.size() to the size check and to _file_size, finding D10; false = the repaired code that accounts the bytes the base sink writes, fixes/D10.diff); the variant that stands for the source tree is read from it on every run (T-src: tools/srcfacts.py rot_facts, TieC14.v by vm_compute, rot_code_variant). For the code variant there is no premise on the writes (rot_ops_code, rot_limit_code: every file within the limit unless a single statement alone exceeds it, RotatingJsonFileSink included, whatever log_statement.size() is); for the earlier variant the premise bytes written = log_statement.size() is needed and false for RotatingJsonFileSink (rot_json_refuted, kept as a statement about that variant). Tied to the real RotatingFileSink/RotatingJsonFileSink by differential runs in a scratch directory (0 disagreements; JSON sinks with empty/short/unrelated log_statement sizes, sizes at limit-1/limit/limit+1) plus a direct property monitor; open findings C14-datetime-restart, C14-date-restart-backwards; D10 repaired; C14-decoy-index (a name component such as 5x parsed as index 5) was repaired (fix commit 50e20c2) and the model now requires a pure digit string.',
     design='5 C14', technique='Coq invariant proof over an executable model + extracted-model/implementation differential correspondence in a scratch directory')
 TRUSTED = [
     'Coq 8.16.1 kernel (coqc, vm_compute for refutation / non-vacuity examples; no native_compute)',
     'axioms: none (every theorem Closed under the global context); libc (strftime of the open instant, mktime/timegm of the adjusted broken-down time) is a Section variable of the model and a premise where a theorem needs a property of it',
+    'T-src: tools/srcfacts.py rot_facts (clang 14 JSON AST skeletons of RotatingSink::write_log / before_stream_write / _size_rotation and StreamSink::write_log) decides the model flag c_cntacct; TieC14.v pins the skeletons by vm_compute; that the Gallina variant c_cntacct = false is faithful to those texts is by inspection (and sampled by the correspondence on every run)',
     'extraction: ExtrOcamlBasic only, OCaml 4.13.1 ocamlopt, extract/driver.ml; the runner looks the libc oracle up in a table carried by the case line, filled from the real libc by harness/rot.cpp',
     'correspondence harness harness/rot.cpp (statements are lines carrying their id, sizes by padding; observation = sorted directory listing after every op), g++ -fsanitize=address,undefined',
     'modelled rather than verified: RotatingSink.h is re-stated in Gallina (Rotate/RotModel.v); file names are dot-separated component lists; file-system failures (ENOSPC, failing rename/remove), readdir order with equal indices, std::sort instability beyond 16 entries, uint32 wrap of indices, stoul sign/whitespace prefixes, before_write notifiers are not modelled',
@@ -80,15 +81,44 @@ def gen(rng, n):
 
 
 def gen_json(rng, n):
-    """RotatingJsonFileSink: the pattern line is empty (cnt = 0), the JSON line is what is written"""
+    """RotatingJsonFileSink: the JSON line (wr bytes) is what is written; log_statement (cnt bytes: the
+    pattern line) is empty, short, or by chance as long as the JSON line.  Sizes aimed at file size + line in
+    {limit-1, limit, limit+1}, single lines above the limit, backup counts, naming schemes, an append / w
+    restart, minutely time rotation in between."""
     cases = []
     for k in range(n):
-        c = default_case(json=1, limit=1024, maxb=rng.choice([2, UNLIMITED]))
-        t = T0
-        ops = [('R', 1, 1, t)]
-        for i in range(rng.choice([8, 12, 20])):
-            t += NS
-            ops.append(('W', 800000 + k * 100 + i, t, rng.choice([200, 220, 300]), 0))
+        limit = rng.choice([512, 600, 1024, 1024, 2000])
+        c = default_case(json=1, limit=limit, maxb=rng.choice([0, 1, 2, 3, UNLIMITED, UNLIMITED]), over=rng.choice([1, 1, 1, 0]),
+                         scheme=rng.choice([0, 0, 1, 2]))
+        if rng.random() < 0.15:
+            c['freq'] = 3; c['interval'] = rng.choice([1, 2])
+        cstyle = rng.choice(['empty', 'empty', 'short', 'mixed'])
+        t = T0 + rng.choice([0, 3600 * NS * rng.randint(0, 50)])
+        mode = rng.choice([0, 1])
+        ops = [('R', mode, 1, t)]
+        cur = 0
+        nrest = rng.choice([0, 0, 0, 1])
+        i = 0
+        for seg in range(nrest + 1):
+            for _ in range(rng.choice([6, 9, 12, 20])):
+                t += rng.choice([NS, NS, 2 * NS, 61 * NS])
+                r = rng.random()
+                if r < 0.4:
+                    w = limit - cur + rng.choice([-1, 0, 1])
+                    if w < 190 or w > limit + 1: w = rng.choice([limit // 2, limit // 3 + 100, limit - 1, limit, limit + 1])
+                elif r < 0.5:
+                    w = limit + rng.choice([1, 50, 700])
+                else:
+                    w = rng.choice([190, 200, 220, 255, 256, 257, 300, limit // 2])
+                w = max(w, 190)
+                cnt = 0 if cstyle == 'empty' else rng.choice([0, 10, 47, 120]) if cstyle == 'short' else rng.choice([0, 33, w, w + 5])
+                ops.append(('W', 800000 + k * 100 + i, t, w, cnt)); i += 1
+                cur = cur + w if cur + w <= limit else w
+            if seg < nrest:
+                mode = 1 - mode if c['scheme'] == 0 else 1
+                t += rng.choice([NS, 5 * NS, 86400 * NS])
+                ops.append(('R', mode, 1, t))
+                if mode: cur = 0
         c['ops'] = ops
         cases.append(unparse(c))
     return cases
@@ -111,7 +141,8 @@ def digit_junk_decoys(c):
 
 def run(tier):
     ck = Check(PID, tier)
-    broken = standard_proof_phase(ck, 'Properties_C14', need_srcfacts=False)
+    broken = standard_proof_phase(ck, 'Properties_C14')
+    read_variant(ck)
     mexe, err = ck.build_modelrun()
     if not mexe:
         ck.violation('no-failing-input-found', 'model extraction/build failed: ' + err[-400:]); return ck.finish(trusted=TRUSTED)
@@ -121,7 +152,7 @@ def run(tier):
         return ck.finish(trusted=TRUSTED)
     n = 3000 if tier == "quick" else 40000
     cor = corpus(PID)
-    cases = cor + gen_json(ck.rng, 3 if tier == 'quick' else 30) + gen(ck.rng, n)
+    cases = cor + gen_json(ck.rng, 300 if tier == 'quick' else 4000) + gen(ck.rng, n)
     ml, il, tabs = run_both(ck, mexe, iexe, cases)
 
     def both(case):
@@ -145,9 +176,6 @@ def run(tier):
 
     def known_match(case, impl_line, msg):
         c = parse(case)
-        f = findings.get('D10')
-        if f and c['json'] == 1 and 'bytes, limit' in msg and all(o[0] == 'R' or o[4] == 0 for o in c['ops']):
-            return '%s open: %s' % (f['id'], f['what'])
         f = findings.get('C14-decoy-index')
         if f and digit_junk_decoys(c) and c['scheme'] == 0 and any(o[0] == 'R' and not o[1] for o in c['ops']):
             # attributable to that decoy only if the violation disappears without it
@@ -208,6 +236,7 @@ def same_second_restart(c):
 def replay(path):
     d = json.load(open(path))
     ck = Check(PID, 'quick')
+    ck.srcfacts(); read_variant()
     mexe, _ = ck.build_modelrun(); iexe, _ = ck.build_harness('rot', ['rot.cpp'])
     c = d.get('case')
     if not c:
@@ -215,6 +244,7 @@ def replay(path):
     ml, il, _ = run_both(ck, mexe, iexe, [c])
     cc = parse(c)
     print('case :', c)
+    print('model variant (T-src): c_cntacct=%(cntacct)d c_plus24=%(plus24)d' % VARIANT)
     print('config: scheme=%s freq=%s limit=%d max_backup=%s overwrite=%d json=%d zone=%s' % (
         SCHEMES[cc['scheme']], FREQS[cc['freq']], cc['limit'], cc['maxb'], cc['over'], cc['json'], 'GMT' if cc['gmt'] else ZONES[cc['zone']]))
     for o in cc['ops']: print('  op', o)
